@@ -1,4 +1,5 @@
 """C11 — stochastic patterns are reproducible when seeded, isolated, and stay in range."""
+import copy
 import json
 import math
 import random as _global_random
@@ -478,8 +479,93 @@ def seed_forms_cases(ctx):
                       {"suite": "string-seed", "outputs": outs})
 
 
+def shared_and_live_argument_cases(ctx):
+    """Implementation-only oracles for argument OBJECTS (the generated expressions always build fresh lists):
+    (1) two instances built from the same list objects are still "any other instance with the same arguments and seed":
+        stepped in any interleaving each produces what it produces alone, and the caller's lists are left as they were;
+    (2) weights are the weights in force at the step: with all the weight on one value the choice is that value, whether
+        the caller's list is edited in place between steps or a pattern hands out a new list at every step."""
+    r = ctx.rng
+    makers = {
+        "PShuffle": lambda a: iso.PShuffle(a["values"], a["repeats"]),
+        "PChoice": lambda a: iso.PChoice(a["values"], a["weights"]),
+        "PSample": lambda a: iso.PSample(a["values"], a["count"], a["weights"]),
+        "PRandomWalk": lambda a: iso.PRandomWalk(a["values"], 1, 2),
+        "PMarkov": lambda a: iso.PMarkov(a["values"]),
+        "PShuffleInput": lambda a: iso.PShuffleInput(iso.PSequence(a["values"], 3), a["count"] + 1),
+    }
+    for i in range(ctx.scale(240, 12000)):
+        name = r.choice(sorted(makers))
+        m = r.randint(2, 6)
+        args = {"values": [r.randint(0, 12) for _ in range(m)], "weights": [r.randint(1, 5) for _ in range(m)],
+                "repeats": r.choice([1, 2, 5]), "count": r.randint(1, m)}
+        if name == "PMarkov":
+            args["values"] = args["values"] + args["values"][:1]          # no dead end
+        snapshot = copy.deepcopy(args)
+        s1 = r.randrange(1 << 30)
+        s2 = r.choice([s1, r.randrange(1 << 30)])
+        n = r.randint(4, 14)
+        replay = {"suite": "c11-shared", "class": name, "args": snapshot, "seeds": [s1, s2], "n": n}
+
+        def solo(seed):
+            p = makers[name](copy.deepcopy(snapshot))
+            p.seed(seed)
+            return toks(outcomes(p, n))
+        e1, e2 = solo(s1), solo(s2)
+        p1, p2 = makers[name](args), makers[name](args)
+        p1.seed(s1)
+        p2.seed(s2)
+        g1, g2 = [], []
+        order = [0] * n + [1] * n
+        r.shuffle(order)
+        for w in order:
+            (g1 if w == 0 else g2).extend(toks(outcomes(p1 if w == 0 else p2, 1)))
+        ctx.case(("shared", name, repr(sorted(snapshot.items())), s1, s2, n), nontrivial=True, validated=False,
+                 sample={"part": "shared-arguments", "class": name, "args": snapshot, "out": " ".join(g1)[:120]})
+        ctx.count("shared:" + name)
+        if g1 != e1 or g2 != e2:
+            ctx.violation("C11:shared-arguments:%s" % name,
+                          "two instances built from the same list objects, stepped alternately, give %s / %s; alone they give %s / %s"
+                          % (g1[:8], g2[:8], e1[:8], e2[:8]), replay)
+        elif args != snapshot:
+            ctx.violation("C11:shared-arguments:%s" % name, "the caller's argument lists were modified: %s -> %s" % (snapshot, args), replay)
+    # (2)
+    for i in range(ctx.scale(200, 8000)):
+        m = r.randint(2, 6)
+        values = [100 + k for k in range(m)]
+        hot = [r.randrange(m) for _ in range(r.randint(6, 16))]
+        mode = r.choice(["in-place", "fresh-list-per-step", "pattern-of-lists"])
+        weights = [1] * m
+        it = iter(hot)
+        if mode == "in-place":
+            p = iso.PChoice(values, weights)
+        elif mode == "fresh-list-per-step":
+            p = iso.PChoice(values, iso.PFunc(lambda: [1 if k == cur[0] else 0 for k in range(m)]))
+        else:
+            p = iso.PChoice(values, iso.PSequence([[1 if k == h else 0 for k in range(m)] for h in hot], 1))
+        p.seed(r.randrange(1 << 30))
+        cur = [0]
+        got = []
+        for h in hot:
+            cur[0] = h
+            if mode == "in-place":
+                for k in range(m):
+                    weights[k] = 1 if k == h else 0
+            got += toks(outcomes(p, 1))
+        exp = toks([("val", values[h]) for h in hot])
+        ctx.case(("live-weights", mode, m, tuple(hot)), nontrivial=True, validated=False,
+                 sample={"part": "live-weights", "mode": mode, "hot": hot, "out": " ".join(got)[:120]})
+        ctx.count("live-weights:" + mode)
+        if got != exp:
+            ctx.violation("C11:range:PChoice",
+                          "weights with all the weight on one value (%s): chose %s, the only value with a non-zero weight is %s"
+                          % (mode, got[:10], exp[:10]),
+                          {"suite": "c11-live-weights", "mode": mode, "values": values, "hot": hot})
+
+
 def run(ctx):
     seed_forms_cases(ctx)
+    shared_and_live_argument_cases(ctx)
     part_a(ctx)
     part_b(ctx)
     part_b_every(ctx)
